@@ -1,4 +1,4 @@
-import Placement.Lemmas.ReadsViews
+import Placement.Lemmas.ReadsExample
 import Placement.Spec.Inv
 /-
   C11, read side.  The read functions of `Model/Reads.lean` are functions of the state, so "reads are
@@ -52,6 +52,12 @@ theorem usages_body_eq_sum_allocations (mv : Nat) (db : DB R) (u : Nat) (v : RpV
   · rintro ⟨rc, hrc, m, hm, rfl, rfl⟩; exact ⟨rc, hrc, hm, rfl⟩
   · rintro ⟨rc, hrc, hm, rfl⟩; exact ⟨rc, hrc, n, hm, rfl, rfl⟩
 
+/-- on the example state: provider 100 reports 2 + 3 of class 10 and 64 of class 12 -/
+example : usagesOf (getRpUsages 39 Ex.db 100).2 = [(10, 5), (12, 64)] ∧
+    allocConsumers Ex.db = [500, 501, 502] ∧
+    (allocConsumers Ex.db).map (fun c => consumerAmount Ex.db c 1 0) = [2, 3, 0] := by decide
+example := usages_body_eq_sum_allocations 39 Ex.db 100 Ex.v1 Ex.provider_100
+
 /-! ### the two views of allocations -/
 
 /-- For an existing provider `u` and any consumer `c` (any two microversions): `GET
@@ -79,6 +85,13 @@ theorem provider_allocations_view_eq_consumer_view_of_uniq (mv mv' : Nat) (db : 
     (c, n, x) ∈ allocTriples (getRpAllocations mv db u).2 ↔
       (u, n, x) ∈ allocTriples (getAllocations mv' db c).2 :=
   provider_allocations_view_eq_consumer_view mv mv' db u v hp hU.rpId hU.rpUuid c n x
+
+/-- on the example state: the provider view of 100 and the consumer view of 500 -/
+example : allocTriples (getRpAllocations 39 Ex.db 100).2 = [(500, 10, 2), (500, 12, 64), (501, 10, 3)] ∧
+    allocTriples (getAllocations 12 Ex.db 500).2 = [(100, 10, 2), (100, 12, 64), (101, 10, 1)] := by decide
+example : (100, 12, 64) ∈ allocTriples (getAllocations 12 Ex.db 500).2 :=
+  (provider_allocations_view_eq_consumer_view_of_uniq 39 12 Ex.db Ex.uniq_db 100 Ex.v1 Ex.provider_100 500 12 64).mp
+    (by decide)
 
 /-! ### generations -/
 
@@ -175,6 +188,13 @@ theorem reported_generation_eq_stored (mv : Nat) (db : DB R) :
     obtain ⟨hcm, _⟩ := consByUuid_mem hc
     exact ⟨cr', hcm, rfl, by simp [h28, Body.fld?, Body.get?]⟩
 
+/-- on the example state: generations 4 / 7 of the providers, 2 of consumer 500 -/
+example : ((getRp 39 Ex.db 100).2.fld? .generation).bind Body.int? = some 4 ∧
+    ((getInventory 39 Ex.db 101 10).2.fld? .resourceProviderGeneration).bind Body.int? = some 7 ∧
+    ((getAllocations 28 Ex.db 500).2.fld? .consumerGeneration).bind Body.int? = some 2 ∧
+    ((getAllocations 27 Ex.db 500).2.fld? .consumerGeneration).bind Body.int? = none := by decide
+example := (reported_generation_eq_stored 28 Ex.db).1 101 Ex.v2 Ex.provider_101
+
 /-! ### root and parent -/
 
 /-- the row of the provider queries for provider `p` whose root row is `root` -/
@@ -235,5 +255,112 @@ theorem provider_body_reports_root_and_parent_rows (mv : Nat) (h14 : 14 ≤ mv) 
       simp only [hroot, Option.some.injEq] at hv
       obtain ⟨h1, h2, h3, h4⟩ := body p root hroot (providerBody mv v) (by rw [← hv]; rfl)
       exact ⟨p, hpm, root, (rpById_mem hroot).1, (rpById_mem hroot).2, h1, h2, h3, h4⟩
+
+/-- on the example state: the child 101 reports root 100 and parent 100; nothing of it below 1.14 -/
+example : ((getRp 14 Ex.db 101).2.fld? .rootProviderUuid).bind Body.name? = some 100 ∧
+    ((getRp 14 Ex.db 101).2.fld? .parentProviderUuid).bind Body.name? = some 100 ∧
+    ((getRp 13 Ex.db 101).2.fld? .rootProviderUuid).bind Body.name? = none := by decide
+example := (provider_body_reports_root_and_parent_rows 14 (by decide) Ex.db).1 101 Ex.v2.row (by decide)
+
+/-! ### usage totals -/
+
+/-- the groups of the 1.38 format of `GET /usages`: (key, {class: sum, consumer_count: n}) -/
+def usageGroupsOf (b : Body R) : List (Key × Body R) := ((b.fld? .usages).getD .null).fields
+
+/-- the consumers `consumer_count` counts for a type condition: distinct consumer uuids of the joined rows -/
+def countedConsumers (db : DB R) (project : Nat) (user : Option Nat) (tp : Option Nat → Bool) : List Nat :=
+  ((totalRows db project user tp).map (·.1.consumer)).eraseDups
+
+/-- `countedConsumers` has no duplicates and consists exactly of the consumers of the project (user,
+type) that hold allocations, so its length is their number -/
+theorem countedConsumers_spec (db : DB R) (project : Nat) (user : Option Nat) (tp : Option Nat → Bool) :
+    (countedConsumers db project user tp).Nodup ∧
+    ∀ u, u ∈ countedConsumers db project user tp ↔
+      ∃ c ∈ consumersOfT db project user tp, db.consByUuid u = some c ∧ ∃ a ∈ db.allocs, a.consumer = u :=
+  ⟨nodup_eraseDups _, mem_counted db project user tp⟩
+
+/-- `GET /usages?project_id=P[&user_id=U]` below 1.38: 200, and the amount reported for a class is the
+sum, over the consumers of the project (and user), of what `GET /allocations/{c}` reports for that
+class (summed over the providers it lists).  Needs the uniqueness constraints (a consumer uuid /
+a class name identifies one row) and referential integrity (an allocation's provider exists,
+otherwise the per-consumer listing, which joins providers, would omit it). -/
+theorem total_usages_eq_sum_consumer_views (mv : Nat) (h9 : 9 ≤ mv) (h38 : mv < 38) (db : DB R)
+    (hU : Uniq db) (hRI : RI db) (project : Nat) (user : Option Nat) :
+    (getUsages mv db { project := some project, user := user }).1 = r200 ∧
+    ∀ n x, (n, x) ∈ usagesOf (getUsages mv db { project := some project, user := user }).2 →
+      x = ((consumersOf db project user).map (fun c => consumerViewAmount db c.uuid n)).sum := by
+  have h9' : ¬ mv < 9 := by omega
+  constructor
+  · simp [getUsages, h9', h38]
+  · intro n x h
+    have e : ((none : Option CtFilter) == some CtFilter.invalid) = false := by decide
+    simp only [getUsages, h9', h38, usagesOf] at h
+    simp only [e, Option.isSome_none, Bool.and_false, Bool.or_false, Bool.false_eq_true, if_false] at h
+    exact mem_sumByClass db hU hRI project user (fun _ => true) n x h
+
+/-- From 1.38 (no `consumer_type` parameter): every group is keyed by a consumer type (`unknown` for
+NULL); the amount it reports for a class is the sum of the per-consumer listings over the consumers
+of that project (user) AND type, and its `consumer_count` is the number of those consumers that hold
+allocations (`countedConsumers_spec`). -/
+theorem total_usages_by_type_eq_sum_consumer_views (mv : Nat) (h38 : 38 ≤ mv) (db : DB R)
+    (hU : Uniq db) (hRI : RI db) (project : Nat) (user : Option Nat) :
+    (getUsages mv db { project := some project, user := user }).1 = r200 ∧
+    ∀ k g, (k, g) ∈ usageGroupsOf (getUsages mv db { project := some project, user := user }).2 →
+      ∃ t : Option Nat, k = ctypeKey t ∧
+        (∀ n x, (n, x) ∈ g.namedInts →
+          x = ((consumersOfT db project user (fun t' => t' == t)).map (fun c => consumerViewAmount db c.uuid n)).sum) ∧
+        g.fld? .consumerCount = some (.int (countedConsumers db project user (fun t' => t' == t)).length) := by
+  have h9' : ¬ mv < 9 := by omega
+  have h38' : ¬ mv < 38 := by omega
+  constructor
+  · simp [getUsages, h9', h38']
+  · intro k g h
+    have e : ((none : Option CtFilter) == some CtFilter.invalid) = false := by decide
+    simp only [getUsages, h9', h38', usageGroupsOf] at h
+    simp only [e, Option.isSome_none, Bool.and_false, Bool.or_false, decide_false,
+      Bool.false_eq_true, if_false, fld?_cons_self, Option.getD_some,
+      fields_obj, List.mem_flatMap] at h
+    obtain ⟨t, _, hg⟩ := h
+    rw [totalRows_filter_type] at hg
+    obtain ⟨rfl, hints, hcount⟩ := mem_usageGroup db _ _ k g hg
+    refine ⟨t, rfl, ?_, hcount⟩
+    intro n x hx
+    rw [hints] at hx
+    exact mem_sumByClass db hU hRI project user _ n x hx
+
+/-- From 1.38 with `consumer_type=all`: one group `all` over the consumers of every type. -/
+theorem total_usages_all_eq_sum_consumer_views (mv : Nat) (h38 : 38 ≤ mv) (db : DB R)
+    (hU : Uniq db) (hRI : RI db) (project : Nat) (user : Option Nat) :
+    ∀ k g, (k, g) ∈ usageGroupsOf (getUsages mv db { project := some project, user := user, ctype := some .all }).2 →
+      k = .fld .all ∧
+      (∀ n x, (n, x) ∈ g.namedInts →
+        x = ((consumersOf db project user).map (fun c => consumerViewAmount db c.uuid n)).sum) ∧
+      g.fld? .consumerCount = some (.int (countedConsumers db project user (fun _ => true)).length) := by
+  have h9' : ¬ mv < 9 := by omega
+  have h38' : ¬ mv < 38 := by omega
+  intro k g h
+  simp only [getUsages, h9', h38', usageGroupsOf] at h
+  simp at h
+  obtain ⟨rfl, hints, hcount⟩ := mem_usageGroup db _ _ k g h
+  refine ⟨rfl, ?_, hcount⟩
+  intro n x hx
+  rw [hints] at hx
+  exact mem_sumByClass db hU hRI project user _ n x hx
+
+/-- on the example state: project 7 holds 2 + 1 + 3 of class 10 and 64 of class 12; by type: consumer
+500 (type 30) and consumer 501 (no type); user 9 alone holds 3 -/
+example : usagesOf (getUsages 20 Ex.db { project := some 7 }).2 = [(10, 6), (12, 64)] ∧
+    (consumersOf Ex.db 7 none).map (fun c => consumerViewAmount Ex.db c.uuid 10) = [3, 3] ∧
+    usagesOf (getUsages 37 Ex.db { project := some 7, user := some 9 }).2 = [(10, 3)] ∧
+    (usageGroupsOf (getUsages 38 Ex.db { project := some 7 }).2).map
+        (fun kg => (kg.1, kg.2.namedInts, (kg.2.fld? .consumerCount).bind Body.int?))
+      = [(.nm 30, [(10, 3), (12, 64)], some 1), (.fld .unknown, [(10, 3)], some 1)] ∧
+    (usageGroupsOf (getUsages 39 Ex.db { project := some 7, ctype := some .all }).2).map
+        (fun kg => (kg.1, kg.2.namedInts, (kg.2.fld? .consumerCount).bind Body.int?))
+      = [(.fld .all, [(10, 6), (12, 64)], some 2)] := by decide
+example := total_usages_eq_sum_consumer_views 20 (by decide) (by decide) Ex.db Ex.uniq_db Ex.ri_db 7 none
+example := total_usages_by_type_eq_sum_consumer_views 38 (by decide) Ex.db Ex.uniq_db Ex.ri_db 7 (some 8)
+example := total_usages_all_eq_sum_consumer_views 39 (by decide) Ex.db Ex.uniq_db Ex.ri_db 7 none
+example : countedConsumers Ex.db 7 none (fun _ => true) = [500, 501] := by decide
 
 end Placement.C11Reads
